@@ -2,4 +2,5 @@
 EXTENDS Conc
 Kinds5 == {"asgL", "asgI", "func", "meth", "three"}
 Kinds2 == {"asgL", "func"}
+Kinds7 == Kinds5 \cup {"methL", "asgML"}
 =============================================================================
